@@ -189,6 +189,8 @@ def run_relative(key):
     S = engine.S
     minor = P.key_is_minor(key)
     sig = P.KEY_SIG[key]
+    # a cold module: the relative key is the first thing this "process" asks (nothing has validated a key yet)
+    importlib.reload(K)
     there, back = (K.relative_major, K.relative_minor) if minor else (K.relative_minor, K.relative_major)
     want = P.major_key(sig) if minor else P.minor_key(sig)
     ok, other = _call(there, key)
@@ -275,6 +277,17 @@ def run_reject(cand):
     S.count("candidates_accepted" if is_key else "candidates_refused")
     if not is_key:
         S.sample(cand)
+    # asking the same thing again gives the same thing again -- also for the diatonic steps, whose first
+    # answer for an unknown key is a refusal and must stay one (a valid key is asked in between calls of other cases)
+    if not is_key:
+        _call(I.third, "C", P.KEYS30[len(cand) % 30])
+        first = _call(I.second, "D", cand)
+        again = _call(I.second, "D", cand)
+        def _cls(r):
+            return ("value", r[1]) if r[0] else ("raised", type(r[1]).__name__)
+        if _cls(first) != _cls(again):
+            S.problem("intervals.second('D', %r) asked twice in a row" % cand, list(_cls(first)), list(_cls(again)))
+        S.outcome(("diatonic step in a non-key", _cls(first)[0]))
     # a refusal must leave the module as it was: a valid key asked right afterwards gets the right answers
     probe = P.KEYS30[sum(ord(c) for c in cand) % 30]
     ok, got = _call(K.get_key_signature_accidentals, probe)
